@@ -497,11 +497,9 @@ def _miri_run(m, prop, tier, seed, cov, many_seeds=False):
                "--seed", str(seed), "--replay-dir", m.REPLAYS, "--known", m.KNOWN, "--stall-secs", "600"]
         return m.run(cmd, cwd=m.HARNESS, env=e, timeout=2400)
 
-    # first process alone so that the (shared) build happens once
-    first = one(0)
+    # all processes at once: cargo's build-directory lock serialises the (shared, incremental) build by itself
     with concurrent.futures.ThreadPoolExecutor(max_workers=nproc) as ex:
-        rest = list(ex.map(one, range(1, nproc)))
-    results = [first] + rest
+        results = list(ex.map(one, range(nproc)))
     calls = 0
     ub = []
     viol = []
